@@ -264,6 +264,26 @@ Section FixedLibChoice.
       destruct (chain_snoc_inv _ _ _ _ _ Hcp) as (_ & Hf & _). congruence.
   Qed.
 
+  (* ---------------------------------------------------------------- the stack is the path to the LIB *)
+
+  Lemma linked_on_path y : forall l, linked y l -> on_path y (rev l).
+  Proof.
+    induction l as [|x l IH] using rev_ind; intros H; [exact I|].
+    rewrite rev_app_distr. cbn [rev app on_path].
+    destruct (linked_app _ _ _ H) as [Hl Hx]. cbn [linked] in Hx. destruct Hx as [Hx _].
+    split; [|apply IH; exact Hl].
+    destruct (rev l) as [|t r]; [|exact Hx]. unfold root_ok. rewrite Hx, N.eqb_refl. apply orb_true_r.
+  Qed.
+
+  Lemma inv_path s S : Inv s S -> on_path (ri r0) S.
+  Proof.
+    intros [_ _ _ _ Hh]. destruct (last_sent s) as [hd|].
+    - destruct Hh as (_ & p & Hc & _ & Hm & _).
+      assert (HS : S = rev (map eb p)) by (rewrite Hm, rev_involutive; reflexivity).
+      rewrite HS. apply linked_on_path. exact (proj1 (chain_linked _ _ _ _ Hc)).
+    - destruct Hh as [-> _]. exact I.
+  Qed.
+
   (* ---------------------------------------------------------------- whole histories *)
 
   Lemma steps_no_final (evs : list event) lr S b S' : c04_step r0 lr S b evs S' ->
@@ -296,7 +316,7 @@ Section FixedLibChoice.
     { apply (fold_no_final _ (fun a _ => a)); [exact Hsteps|]. intros a e [-> | ->]; reflexivity. }
     cbn [fk_run fk_obs c03_follows c03_follow c03_noise]. rewrite Hstep. cbn [c03_follows c03_follow c03_noise o_events o_head].
     fold (fstep fc b). split; [|split].
-    - exists S'. split; [exact Happ|]. split; [symmetry; exact (fr_tip _ _ _ HR')|]. rewrite Hfin.
+    - exists S'. split; [exact Happ|]. split; [symmetry; exact (fr_tip _ _ _ HR')|]. split; [exact (inv_path s' S' HI')|]. rewrite Hfin.
       split; [intros _; symmetry; exact (fr_final _ _ _ HR') | exact IH1].
     - rewrite Happ, Hfin0. rewrite top_id_hd, <- (fr_tip _ _ _ HR'), N.eqb_refl. cbn [andb].
       unfold head_info. rewrite (inv_top s' S' HI'), <- (fr_tip _ _ _ HR').
@@ -307,4 +327,86 @@ Section FixedLibChoice.
       rewrite N.eqb_refl. cbn [andb]. exact IH2.
     - split; [|exact IH3]. intros Ht _. exact (Hsame Ht).
   Qed.
+
+  (* ---------------------------------------------------------------- the retention setting is never read *)
+
+  Section Kept.
+    Variable k : N.
+    Let cfg' := with_kept cfg k.
+
+    Lemma fstate_eq (a c : fstate) : store (db a) = store (db c) -> extra (db a) = extra (db c) ->
+      libref (db a) = libref (db c) -> last_sent a = last_sent c -> last_lib_seen a = last_lib_seen c ->
+      ncalls a = ncalls c -> a = c.
+    Proof. destruct a as [[] ? ? ?], c as [[] ? ? ?]. cbn. intros; subst; reflexivity. Qed.
+
+    Lemma process_tail_kept s1 b undos redos junc longest :
+      lib_db r0 (db s1) -> last_lib_seen s1 = r0 -> longest <> [] ->
+      Forall (fun sg => seg_ref sg = bref (eb (sent sg))) longest ->
+      seg_ref (last longest (mkSeg 0 0 (mkEntry b false))) = bref b ->
+      (forall d ls, store d = mark_all (store (db s1)) (unsent longest) -> extra d = extra (db s1) -> libref d = libref (db s1) ->
+          In ls (map (fun sg => eb (sent sg)) (unsent longest)) \/ last_sent s1 = Some ls ->
+          block_in_chain d (bref ls) (blib ls) = Some (mkR (ri r0) (rn r0))) ->
+      process_tail cfg' s1 b undos redos junc longest None = process_tail cfg s1 b undos redos junc longest None.
+    Proof.
+      intros Hl Hseen Hne Hrefs Hhead Htail.
+      destruct (process_tail_ev r0 cfg Hnofail Hnew Hundo L_id s1 b undos redos junc longest Hl Hseen Hne Hrefs Hhead Htail)
+        as (s3 & -> & A1 & A2 & A3 & A4 & A5 & A6).
+      destruct (process_tail_ev r0 cfg' Hnofail Hnew Hundo L_id s1 b undos redos junc longest Hl Hseen Hne Hrefs Hhead Htail)
+        as (s3' & -> & B1 & B2 & B3 & B4 & B5 & B6).
+      f_equal. f_equal. apply fstate_eq; congruence.
+    Qed.
+
+    Lemma fk_step_kept s S b : Inv s S -> last_lib_seen s = r0 -> In b U -> fk_step cfg' s b = fk_step cfg s b.
+    Proof.
+      intros HI Hseen Hb.
+      destruct (dropped s b) eqn:Hd.
+      { rewrite (fk_step_dropped U cfg' U_id s b Hb Hd), (fk_step_dropped U cfg U_id s b Hb Hd). reflexivity. }
+      pose proof HI as [Hnd HU Hl Hlc Hh].
+      pose proof (wf_of_U U U_id U_up _ Hnd HU) as Hwf.
+      destruct (find (bid b) (store (db s))) as [e|] eqn:Hf.
+      { rewrite (fk_step_old U cfg' Hincl U_id U_uniq s b e HU Hb Hf Hwf), (fk_step_old U cfg Hincl U_id U_uniq s b e HU Hb Hf Hwf).
+        reflexivity. }
+      pose proof (inv_add U r0 s S b HI Hb Hf) as HI1.
+      set (s1 := with_db s (new_db (db s) b)) in *.
+      set (en := mkEntry b false).
+      assert (Hk : ~ In (bid b) (keys (store (db s)))) by (apply find_none; exact Hf).
+      assert (Hsw : exists u r j, sw_of cfg s b = ScssOk u r j).
+      { unfold sw_of. destruct (f_undo (c_filter cfg) && triggers cfg s b); [|eauto].
+        destruct (last_sent s) as [ls|]; [apply scss_total; exact Hwf | eauto]. }
+      destruct Hsw as (undos & redos & junc & Hsw).
+      assert (Hsw' : sw_of cfg' s b = ScssOk undos redos junc) by exact Hsw.
+      rewrite (fk_step_new U r0 cfg' Hincl U_id L_id s b undos redos junc Hl Hb Hf Hd Hsw').
+      rewrite (fk_step_new U r0 cfg Hincl U_id L_id s b undos redos junc Hl Hb Hf Hd Hsw).
+      cbv zeta. fold s1.
+      change (c_first cfg') with (c_first cfg). change (triggers cfg' s b) with (triggers cfg s b).
+      change (new_db (db s) b) with (db s1).
+      pose proof HI1 as [Hnd1 HU1 Hl1 Hlc1 Hh1].
+      destruct (reversible_segment (db s1) (c_first cfg) (bref b)) as [[longest reach]|] eqn:Hrs; [|reflexivity].
+      destruct (negb (triggers cfg s b) || match longest with [] => true | _ => false end) eqn:Hgo; [reflexivity|].
+      apply orb_false_iff in Hgo as [_ Hlong].
+      assert (Hfb : find (bid b) (store (db s1)) = Some en).
+      { apply (find_snoc_new (store (db s)) en). exact Hk. }
+      unfold reversible_segment in Hrs. cbn [bref ri rn] in Hrs.
+      destruct (longest_shape r0 cfg L_id (db s1) b longest reach Hl1 Hfb Hrs) as (pP & Hc & ->).
+      { destruct longest; discriminate. }
+      apply process_tail_kept.
+      - exact Hl1.
+      - exact Hseen.
+      - destruct pP; discriminate.
+      - apply seg_of_refs.
+      - rewrite map_app. cbn [map]. rewrite last_last. reflexivity.
+      - exact (tail_hyp U r0 cfg U_id U_uniq U_up L_id L_num L_up L_lib s1 S b pP HI1 Hb Hc).
+    Qed.
+
+    Lemma run_kept : forall h s S, Inv s S -> last_lib_seen s = r0 -> (forall b, In b h -> In b U) ->
+      fk_run cfg' s h = fk_run cfg s h.
+    Proof.
+      induction h as [|b h IH]; intros s S HI Hseen Hh; [reflexivity|].
+      assert (Hb : In b U) by (apply Hh; left; reflexivity).
+      destruct (step_ev U r0 cfg Hnofail Hnew Hundo Hincl U_id U_uniq U_up L_id L_num L_up L_lib s S b HI Hseen Hb)
+        as (s' & evs & S' & Hstep & _ & HI' & Hseen' & _ & _).
+      cbn [fk_run]. rewrite (fk_step_kept s S b HI Hseen Hb), Hstep.
+      rewrite (IH s' S' HI' Hseen' (fun x Hx => Hh x (or_intror Hx))). reflexivity.
+    Qed.
+  End Kept.
 End FixedLibChoice.
